@@ -259,3 +259,82 @@ func newErrors(u, u2 *Unit) bool {
 	}
 	return false
 }
+
+// rebindClosure: see runFunc.
+func (kc *kernelCtx) rebindClosure(u *Unit, b *Block) *Unit {
+	i := strings.LastIndex(b.Name, "$")
+	bc := b.first("binds")
+	if i < 0 || bc == nil {
+		return nil
+	}
+	relevant := false
+	for _, e := range u.Errs {
+		if strings.Contains(e, "no parameter or captured variable named") || strings.Contains(e, "no such function") {
+			relevant = true
+		}
+	}
+	if !relevant {
+		return nil
+	}
+	parent := b.Name[:i]
+	fns := kc.w.allFuncs(b.Pkg)
+	want := strings.Fields(bc.Text)
+	orig := fns[b.Name]
+	var cands []string
+	for k, f := range fns {
+		if k == b.Name || !strings.HasPrefix(k, parent+"$") || strings.Contains(k[len(parent)+1:], "$") || f.Blocks == nil {
+			continue
+		}
+		if _, claimed := kc.byBlk[b.Pkg+"::"+k]; claimed {
+			// another contract is written for that closure; it may have moved too, but two contracts on one closure would be a guess
+			continue
+		}
+		if orig != nil && len(orig.Params) != len(f.Params) {
+			continue
+		}
+		have := map[string]bool{}
+		for g := f; g != nil; g = g.Parent() {
+			for _, p := range g.Params {
+				have[p.Name()] = true
+			}
+			for _, fv := range g.FreeVars {
+				have[fv.Name()] = true
+			}
+		}
+		ok := true
+		for _, n := range want {
+			if !have[n] {
+				ok = false
+			}
+		}
+		if ok {
+			cands = append(cands, k)
+		}
+	}
+	if len(cands) != 1 {
+		return nil
+	}
+	nb := *b
+	nb.Name = cands[0]
+	k2 := *kc
+	k2.loops = map[string]*Block{}
+	for k, lb := range kc.loops {
+		k2.loops[k] = lb
+		if strings.HasPrefix(k, b.Pkg+"::"+b.Name+"#") {
+			k2.loops[b.Pkg+"::"+cands[0]+k[len(b.Pkg+"::"+b.Name):]] = lb
+		}
+	}
+	u2 := k2.runFunc0(&nb)
+	if hasBindingErr(u2) {
+		return nil
+	}
+	// keep the obligation names of the contract (known findings and reports are keyed by them)
+	for j := range u2.Obls {
+		if strings.HasPrefix(u2.Obls[j].Name, qualName(&nb)) {
+			u2.Obls[j].Name = qualName(b) + u2.Obls[j].Name[len(qualName(&nb)):]
+		}
+	}
+	u2.Name = u.Name
+	u2.Rebound = "closure " + b.Name + " is now " + cands[0]
+	return u2
+}
